@@ -7,13 +7,15 @@ SIGS = {
     "monoidal": (
         [("box", "f", ("x",), ("y",)), ("box", "g", ("y",), ("x", "x")), ("box", "h", ("x", "x"), ("y",)),
          ("box", "u", (), ("x",)), ("box", "e", ("y",), ()), ("box", "s", (), ()),
-         ("box", "fd", ("y",), ("x",), True), ("swap", "x", "y"), ("box", "k", ("x", "y"), ("y", "x"))],
+         ("box", "fd", ("y",), ("x",), True), ("swap", "x", "y"), ("box", "k", ("x", "y"), ("y", "x")),
+         ("box", "z0", ("x",), ("x",), False, 0), ("box", "zl", ("x",), ("y",), False, ())],
         [(), ("x",), ("y",), ("x", "y"), ("x", "x")]),
     "rigid": (
         [("box", "f", ("n",), ("n.r",)), ("box", "g", ("n",), ("n", "n")), ("box", "u", (), ("n",)),
          ("box", "e", ("n.r",), ()), ("box", "s", (), ()), ("box", "fd", ("n.r",), ("n",), True),
          ("cup", "n", "n.r"), ("cap", "n.r", "n"), ("cap", "n", "n.l"), ("cup", "n.l", "n"),
-         ("cap", "n", "n.r"), ("cup", "n.r", "n"), ("swap", "n", "n.r")],
+         ("cap", "n", "n.r"), ("cup", "n.r", "n"), ("swap", "n", "n.r"),
+         ("box", "z0", ("n",), ("n",), False, 0.0)],
         [(), ("n",), ("n.r",), ("n", "n.r"), ("n", "n")]),
     "tensor": (
         [("tbox", "a", (2,), (3,)), ("tbox", "b", (3,), (2, 2)), ("tbox", "c", (), (2,)),
